@@ -8,6 +8,7 @@ import json
 from .. import core, qeval, qpool
 
 LEVEL = "proof"
+READY = True
 CLAIM = {
     "text": "Lean theorems for compound queries with ANY number of | and & operands: findall is the list of values of finditer, the result is the left-to-right "
             "fold (union = left followed by right; intersection = left restricted to values also produced by right), match is the head of finditer; a counter-model of the "
